@@ -474,6 +474,48 @@ def extract(repo):
     grab('skipfreeDefaultMaxHeight', lambda: eval_int(const_int(read(repo, 'skipfree/src/lib.rs'), 'DEFAULT_MAX_HEIGHT')))
     grab('skipfreeBranching', lambda: eval_int(const_int(read(repo, 'skipfree/src/lib.rs'), 'BRANCHING')))
     c09_consts(repo, grab)
+    # C04 / C13, structure rather than constants: WHERE three statements stand (1 = as modelled)
+    def strip(t):
+        return re.sub(r'\s+', ' ', re.sub(r'//[^\n]*', '', t))
+    def recover_reads_output_per_log():
+        # `recover_one` takes the input of its ingest record from the manifest itself
+        # (`mani.info('O')`), once per log; `recover` does not read it before its loop
+        src = re.sub(r'//[^\n]*', '', read(repo, 'lsmtk/src/kvs/mod.rs'))
+        outer = re.search(r'\n    fn recover\(.*?\n    \}\n', src, re.S)
+        inner = re.search(r'\n    fn recover_one\(.*?\n    \}\n', src, re.S)
+        if not outer or not inner:
+            raise Missing('KeyValueStore::recover / recover_one')
+        if 'recover_one(' not in outer.group(0):
+            raise Missing('recover does not call recover_one')
+        per_log = re.search(r"mani\s*\.info\('O'\)", inner.group(0)) is not None
+        hoisted = re.search(r"\.info\('O'\)", outer.group(0)) is not None
+        return 1 if per_log and not hoisted else 0
+    grab('lsmtkRecoverReadsOutputPerLog', recover_reads_output_per_log)
+    def discard_check_unguarded():
+        # verify_one compares the recorded discard with the one recomputed from the names for EVERY
+        # edit after the first, before (and outside) the block that runs verify_gc
+        v = strip(read(repo, 'lsmtk/src/verifier.rs'))
+        if 'discard != computed_discard' not in v or 'self.verify_gc(&edit, discard)' not in v:
+            raise Missing('verify_one discard check / verify_gc call')
+        pat = (r'if discard != computed_discard \{ return Err\(corruption\(format!\( "manifest has bad discard[^"]*" \)\)\); \} '
+               r'if discard != Setsum::default\(\) && edit\.rmed\(\)\.count\(\) > 0 \{ self\.verify_gc\(&edit, discard\)\?; \} '
+               r'acc -= computed_discard;')
+        return 1 if re.search(pat, v) else 0
+    grab('lsmtkVerifierDiscardCheckUnguarded', discard_check_unguarded)
+    def open_reads_under_lock():
+        # Manifest::open: every read_mani(..) comes after the lock is held (inside `Some(_lockfile) =>`)
+        src = re.sub(r'//[^\n]*', '', read(repo, 'mani/src/lib.rs'))
+        body = re.search(r'\n    pub fn open<.*?\n    \}\n', src, re.S)
+        if not body:
+            raise Missing('Manifest::open')
+        b = body.group(0)
+        held = b.find('Some(_lockfile) =>')
+        locks = [m.start() for m in re.finditer(r'Lockfile::(?:wait|lock)\(', b)]
+        reads = [m.start() for m in re.finditer(r'read_mani\(', b)]
+        if held < 0 or not locks or not reads:
+            raise Missing('Manifest::open: lock acquisition / read_mani')
+        return 1 if max(locks) < held and all(r > held for r in reads) else 0
+    grab('maniOpenReadsUnderLock', open_reads_under_lock)
     return out, notes
 
 def c19_consts(repo, grab):
